@@ -200,7 +200,7 @@ func c03Amt(r *rand.Rand, minBurst int64) int64 {
 }
 
 func c03Bound(c *Ctx) {
-	c.Cases("hist", c.N(240, 6000), func(i int, r *rand.Rand) {
+	c.Cases("hist", c.N(900, 20000), func(i int, r *rand.Rand) {
 		rs := genRates(r, 3)
 		nsrc := 1 + r.IntN(3)
 		nreq := 1500 + r.IntN(2500)
